@@ -114,6 +114,45 @@ func c14Scenarios() []c14Scenario {
 			Verdict: c14Verdict(func() string { return fmt.Sprint("seen=", seen) }),
 		}
 	}})
+	// S8: two application goroutines enumerate the registry at the same time
+	// (after a connect, so that whatever the enumeration caches was just
+	// invalidated), while a further client connects and Stop enumerates internally
+	enumerators := func(name string, withStop bool) c14Scenario {
+		return c14Scenario{Name: name, New: func() *sched.Run {
+			seen := 0
+			return &sched.Run{
+				Body: func() {
+					s := srv.NewServer(srv.NewDouble())
+					if s.Start() != nil {
+						return
+					}
+					if cl, o := sched.Dial(":6379"); o.Status == "ok" {
+						cl.Do("PING")
+					}
+					for i := 0; i < 2; i++ {
+						vrt.Go(fmt.Sprintf("app%d", i), func() {
+							for _, c := range s.Conns() {
+								seen++
+								s.ConnByUUID(c.UUID())
+							}
+						})
+					}
+					if withStop {
+						s.Stop()
+						return
+					}
+					vrt.Go("client1", func() {
+						if cl, o := sched.Dial(":6379"); o.Status == "ok" {
+							cl.Do("PING")
+							cl.Close()
+						}
+					})
+				},
+				Verdict: c14Verdict(func() string { return fmt.Sprint("seen=", seen) }),
+			}
+		}}
+	}
+	out = append(out, enumerators("S8-two-enumerators", false), enumerators("S9-enumerators-vs-stop", true))
 	// S4: Stop concurrent with a client mid-command and a client connecting
 	lifecycle := func(name string, call func(s *redis.Server) error, idleFirst bool) c14Scenario {
 		return c14Scenario{Name: name, New: func() *sched.Run {
@@ -317,7 +356,7 @@ func init() {
 	fw.Register(&fw.Prop{
 		ID:    "C14",
 		Level: "model_checking",
-		Rule:  "9 scenarios on the real Start/accept loop/connection goroutines over the in-memory network: two clients doing CONFIG SET/GET; a client connecting while another CONFIG SETs requirepass; two clients running a command of every executor family (and AUTH sequences) against a race-free double; two clients connecting/disconnecting while the harness enumerates the registry (Conns, ConnByUUID, connection accessors); Stop concurrent with clients mid-command and connecting; Restart with an idle client; Restart after SetRequirePass; two TLS clients (real handshake) doing CONFIG SET while Stop runs. Every schedule within deviation bound 2 (thorough 3) is executed with every field access of the instrumented framework feeding a vector-clock happens-before oracle (edges: go, mutex/RWMutex release-acquire, sync.Map per key, connection write->read, dial->accept, close->EOF/error; scheduler hand-offs are NOT edges); locations found racy become scheduling points and the exploration is repeated until the racy set is stable. A race is an unordered pair of access sites on one location with at least one write.",
+		Rule:  "11 scenarios on the real Start/accept loop/connection goroutines over the in-memory network: two clients doing CONFIG SET/GET; a client connecting while another CONFIG SETs requirepass; two clients running a command of every executor family (and AUTH sequences) against a race-free double; two clients connecting/disconnecting while the harness enumerates the registry (Conns, ConnByUUID, connection accessors); Stop concurrent with clients mid-command and connecting; Restart with an idle client; Restart after SetRequirePass; two TLS clients (real handshake) doing CONFIG SET while Stop runs; two application goroutines enumerating the registry at once right after a connect, with a further client connecting or with Stop running. Every schedule within deviation bound 2 (thorough 3) is executed with every field access of the instrumented framework feeding a vector-clock happens-before oracle (edges: go, mutex/RWMutex release-acquire, sync.Map per key, connection write->read, dial->accept, close->EOF/error; scheduler hand-offs are NOT edges); locations found racy become scheduling points and the exploration is repeated until the racy set is stable. A race is an unordered pair of access sites on one location with at least one write.",
 		Assumptions: []string{
 			"setters documented as pre-start configuration (SetTracer, SetCommandHandler, RegisterExexutor, SetPort) are called before Start only; SetRequirePass before Restart is called by the lifecycle thread between Stop-free calls as the repository's own tests do",
 			"the race-detector stress with 2..32 clients is replaced by exhaustive small scenarios: a race is a pair of accesses, two contending threads exhibit it",
